@@ -56,7 +56,10 @@ def run(tier):
     digs = optrun.other_process([(t1, kw) for (_, _, t1, kw) in other])
     for (rec, itn, t1, kw), dg in zip(other, digs):
         rec["digest_other"] = itn.s(dg)
-    verdicts = tracecheck.validate("TraceOptions", records, "c04", ck=ck, chunk=500)
+    def canary(r):
+        r["digest2"] = r["digest1"] + 1000
+        return r
+    verdicts = tracecheck.validate("TraceOptions", records, "c04", ck=ck, chunk=500, canary=canary)
     for rid, v in verdicts.items():
         if v["verdict"] != "ok":
             text, o, t1, t2 = meta[rid]
